@@ -16,9 +16,23 @@ import itertools
 import z3
 
 _fresh = itertools.count()
+_scope = ['', {}]
+
+
+def set_scope(key: str):
+    """Names created while one function is verified carry a tag derived from the function and a counter that restarts with
+    it: the VCs of a function are textually identical in every property that verifies it (solver behaviour, hints and timings
+    do not depend on what was verified before), and names of different functions never collide."""
+    import zlib
+    import os
+    tag = format(zlib.crc32((key + os.environ.get('PYVC_NAME_SALT', '')).encode()) % 46656, 'x')
+    _scope[0] = tag + '.'
+    _scope[1][tag] = itertools.count()
 
 
 def fresh_name(base: str) -> str:
+    if _scope[0]:
+        return f'{base}!{_scope[0]}{next(_scope[1][_scope[0][:-1]])}'
     return f'{base}!{next(_fresh)}'
 
 
